@@ -555,11 +555,12 @@ def stmt_end_after(toks, i, hi):
             if t.text in rslex.OPEN: depth += 1
             elif t.text in rslex.CLOSE:
                 depth -= 1
-                if depth < 0: raise LostAnchor("call is in tail position; no statement end")
+                if depth < 0:
+                    e_ = LostAnchor("call is in tail position; no statement end"); e_.tail_end = k; raise e_
             elif t.text == ";" and depth == 0:
                 return k + 1
         k += 1
-    raise LostAnchor("no statement end")
+    e_ = LostAnchor("no statement end"); e_.tail_end = hi; raise e_
 
 def stmt_start_before(toks, i, lo):
     """index of the first token of the statement containing token i (after previous `;`, `{` or `}` at relative depth 0)."""
@@ -724,14 +725,27 @@ def gen_fn(repo, fs, unit, em, mode, canary=False):
     for k_, s in fs.before_return.items():
         if k_ < 1 or k_ > len(rets): raise LostAnchor("%s: return#%d does not exist" % (fs.qname, k_))
         ins_before(stmt_start_before(body, rets[k_ - 1], 0), s)
+    tail_wraps = []
     for (nm, k_), s in fs.after_call.items():
         cs = find_calls(body, 0, len(body), nm)
         if k_ < 1 or k_ > len(cs): raise LostAnchor("%s: call %s#%d does not exist" % (fs.qname, nm, k_))
-        ins_before(stmt_end_after(body, cs[k_ - 1], len(body)), "\n" + s)
+        try:
+            ins_before(stmt_end_after(body, cs[k_ - 1], len(body)), "\n" + s)
+        except LostAnchor as e_:
+            # the call is the tail expression of its block: bind the value, run the proof block, yield the value (rule wrap.tail)
+            te = getattr(e_, "tail_end", None)
+            if te is None: raise
+            st_ = stmt_start_before(body, cs[k_ - 1], 0)
+            nm_ = "r__t%d" % (len(tail_wraps) + 1)
+            tail_wraps.append((st_, te, nm_, s))
+            unit.rules.hit("wrap.tail")
     for (nm, k_), s in fs.before_call.items():
         cs = find_calls(body, 0, len(body), nm)
         if k_ < 1 or k_ > len(cs): raise LostAnchor("%s: call %s#%d does not exist" % (fs.qname, nm, k_))
         ins_before(stmt_start_before(body, cs[k_ - 1], 0), s)
+    for st_, te, nm_, s in tail_wraps:
+        ins[st_].append("let %s = " % nm_)                       # last at that position: directly in front of the expression
+        ins[te].insert(0, ";\n" + s + "\n" + nm_ + "\n")          # first at the block end
     # 4. emit
     info = {"qname": fs.qname, "file": fs.file, "srcline": it.line(src), "sha256": sha, "mode": mode,
             "serves": fs.serves, "opts": dict(fs.opts)}
